@@ -27,6 +27,15 @@ type CacheBackend interface {
 	Exists(ctx context.Context, path string, key string) (bool, error)
 }
 
+// AllTiersExister is an optional interface for backends that keep every entry in more than
+// one tier (e.g. a local cache in front of a remote one).
+type AllTiersExister interface {
+	// ExistsInAllTiers checks if the key is present in every tier of the backend.
+	// Unlike Exists it does not report true for a key that only some tiers hold,
+	// so it can be used to decide whether a write may be skipped.
+	ExistsInAllTiers(ctx context.Context, path string, key string) (bool, error)
+}
+
 func GetCacheBackend(
 	ctx context.Context,
 	cacheConfig config.CacheConfig,
